@@ -30,6 +30,8 @@ VARIANTS = {
     "late-registration": {"posters": [("local", [20, 20]), ("local", [10, 20])], "late": True},
     "late-remote": {"posters": [("remote", [20, 20]), ("local", [20, 5])], "late": True},
     "late-three": {"posters": [("local", [20, 20, 20])], "late": True},
+    # the sending agent learns the hosting agent's address only together with the computation's registration
+    "late-remote-unknown-agent": {"posters": [("remote", [20, 20])], "late": True, "address_with_registration": True},
     "shutdown-race": {"posters": [("local", [20])], "late": False, "main_posts": [20]},
 }
 
@@ -53,7 +55,8 @@ def scenario_for(variant):
         a2 = Agent("a2", InProcessCommunicationLayer())  # only its Messaging / comm layer are used (thread never started)
         comp = Rec("c")
         # a2 knows where a1 and (later) c are
-        a2.discovery.register_agent("a1", a1.address, publish=False)
+        if not cfg.get("address_with_registration"):
+            a2.discovery.register_agent("a1", a1.address, publish=False)
         if not cfg["late"]:
             a1.add_computation(comp)
             a2.discovery.register_computation("c", "a1", publish=False)
@@ -89,7 +92,11 @@ def scenario_for(variant):
             def registrar():
                 obs["spans"].append(["reg", len(obs["spans"]), None])
                 a1.add_computation(comp)
-                a2.discovery.register_computation("c", "a1", publish=False)
+                if cfg.get("address_with_registration"):
+                    # what the directory's notification does: computation, hosting agent and its address at once
+                    a2.discovery.register_computation("c", "a1", a1.address, publish=False)
+                else:
+                    a2.discovery.register_computation("c", "a1", publish=False)
                 obs["spans"].append(["reg-end", len(obs["spans"]), None])
                 comp.start()
 
